@@ -31,20 +31,31 @@ def run(model=None, pkg_path=None):
         return json.load(open(cpath))
     work = common.scratch("image-")
     try:
-        ip = os.path.join(work, "image.json")
-        env = dict(os.environ, PYTHONPATH=pkg_path + os.pathsep + common.VERIF, PYTHONHASHSEED="0")
-        p = subprocess.run([common.PY, "-m", "harness.introspect", ip, model], cwd=common.VERIF, env=env, stdout=subprocess.PIPE, stderr=subprocess.PIPE)
-        if p.returncode != 0:
-            # the module does not even import / introspect: that is a finding of C04, reported by the caller
-            return {"fails": [{"c": "I_import", "pos": p.stderr.decode().strip().splitlines()[-1][:200]}], "obligations": {}, "summary": {}, "sample": {}}
-        summary = json.loads(p.stdout.decode().strip().splitlines()[-1])
-        rc, out = common.run_tlc("PyImage", CFG, env={"LSP_MODEL": model, "PY_IMAGE": ip}, heap="3g")
-        obl = list(common.tagged_lines(out, "@O"))
-        if not obl or "No error has been found" not in out:
-            raise common.MachineryError("PyImage.tla failed:\n" + out[-3000:])
-        img = json.load(open(ip))
-        sample = {"class Position": img["classes"].get("Position"), "method initialize": img["methods"].get("initialize")}
-        res = {"fails": list(common.tagged_lines(out, "@F")), "obligations": obl[0], "summary": summary, "sample": sample}
+        res = None
+        # the module is looked at twice: right after the first converter was created, and after the package has been
+        # USED (several converters, messages parsed and written, objects compared and changed) under python -O
+        for stage, extra in (("fresh", {}), ("used", {"VERIF_IMAGE_STAGE": "used", "PYTHONOPTIMIZE": "1", "PYTHONHASHSEED": "5"})):
+            ip = os.path.join(work, "image-%s.json" % stage)
+            env = dict(os.environ, PYTHONPATH=pkg_path + os.pathsep + common.VERIF, PYTHONHASHSEED="0")
+            env.update(extra)
+            p = subprocess.run([common.PY, "-m", "harness.introspect", ip, model], cwd=common.VERIF, env=env, stdout=subprocess.PIPE, stderr=subprocess.PIPE)
+            if p.returncode != 0:
+                # the module does not even import / introspect: that is a finding of C04, reported by the caller
+                return {"fails": [{"c": "I_import", "pos": p.stderr.decode().strip().splitlines()[-1][:200]}], "obligations": {}, "summary": {}, "sample": {}}
+            summary = json.loads(p.stdout.decode().strip().splitlines()[-1])
+            rc, out = common.run_tlc("PyImage", CFG, env={"LSP_MODEL": model, "PY_IMAGE": ip}, heap="3g")
+            obl = list(common.tagged_lines(out, "@O"))
+            if not obl or "No error has been found" not in out:
+                raise common.MachineryError("PyImage.tla failed:\n" + out[-3000:])
+            fails = list(common.tagged_lines(out, "@F"))
+            if res is None:
+                img = json.load(open(ip))
+                sample = {"class Position": img["classes"].get("Position"), "method initialize": img["methods"].get("initialize")}
+                res = {"fails": fails, "obligations": obl[0], "summary": summary, "sample": sample, "stages": ["fresh"]}
+            else:
+                known = {(f["c"], f["pos"]) for f in res["fails"]}
+                res["fails"] += [dict(f, pos=f["pos"] + "|after use") for f in fails if (f["c"], f["pos"]) not in known]
+                res["stages"].append(stage)
     finally:
         shutil.rmtree(work, ignore_errors=True)
     os.makedirs(common.CACHE, exist_ok=True)
